@@ -176,7 +176,7 @@ func (r *request) buildHTTP(mediaType, basePath string, producers map[string]run
 							logClose(err, pw)
 							return
 						}
-						fileContentType = http.DetectContentType(buf)
+						fileContentType = http.DetectContentType(buf[:size])
 						fi = runtime.NamedReader(fi.Name(), io.MultiReader(bytes.NewReader(buf[:size]), fi))
 					}
 
